@@ -7,6 +7,8 @@ checks = json.load(open(os.path.join(V, "checks.json")))
 for f in sorted(glob.glob(os.path.join(V, "checks.d", "*.json"))):
     checks.update(json.load(open(f)))
 props = [json.loads(l) for l in open(os.path.join(V, "properties.jsonl"))]
+enabled = [l.strip() for l in open(os.path.join(V, "enabled.txt")) if l.strip() and not l.startswith("#")]
+checks = {k: v for k, v in checks.items() if k in enabled}
 na_reasons = {}
 if os.path.exists(os.path.join(V, "na.json")):
     na_reasons = json.load(open(os.path.join(V, "na.json")))
